@@ -34,10 +34,13 @@ def expected_calls(calls):
 
 
 def end_to_end(chk, n):
-    exe = '/root/scratch/goflow2-e2e'
+    import shutil
+    bdir = tempfile.mkdtemp(prefix='c18bin', dir='/root/scratch')     # own directory: checks may run side by side
+    exe = os.path.join(bdir, 'goflow2')
     p = sh('go build -o %s ./cmd/goflow2' % exe, cwd=REPO, env=GOENV, timeout=600, check=False)
     if p.returncode != 0:
         chk.notes.append('goflow2 binary did not build: ' + p.stdout[-300:])
+        shutil.rmtree(bdir, ignore_errors=True)
         return None
     out = tempfile.mktemp(prefix='e2e', dir='/root/scratch')
     s = socket.socket(socket.AF_INET, socket.SOCK_DGRAM)
@@ -103,7 +106,7 @@ def end_to_end(chk, n):
         os.remove(out)
     except Exception:
         pass
-    os.remove(exe)
+    shutil.rmtree(bdir, ignore_errors=True)
     return rc, recs, lines
 
 
